@@ -190,20 +190,30 @@ def faultSafe (s : Step) (d : Option Dep) (o : StepOut) : Bool :=
   (if s.fault = .get then o.res == .err && o.writes == 0 else true) &&
   (if s.fault = .write ∧ o.res = .ok then o.writes == 0 else true)
 
-/-- a call that returns ok has its effect: after `Initialize` the Deployment is under rollout control;
-    after `Finalize` of a claimed Deployment the control-info is gone (and with `batchPartition = nil`
-    so are the strategy annotation and the pause); after `UpgradeBatch` see `upgradeSuffices` -/
+/-- C06 **full strength**: a call that returns ok has its effect.  After `Initialize` the Deployment is under
+    rollout control.  After `Finalize` of a paused Deployment the control-info is gone and, with
+    `batchPartition = nil`, so are the strategy annotation and the pause; a Deployment its user has un-paused is
+    left alone.  (`UpgradeBatch`: `upgradeSuffices`.) -/
 def okHasEffect (s : Step) (d : Option Dep) (o : StepOut) : Bool :=
   if o.res = .ok then
     match s.call, d, o.dep with
     | .initialize, some _, some d' => isUnderRolloutControl d'
     | .initialize, _, _ => false
     | .finalize, some d, some d' =>
-      if claimed d then d'.control == .none && (!s.bpNil || (d'.stratAnno == .absent && !d'.paused)) else d' == d
+      if d.paused then d'.control == .none && (!s.bpNil || (d'.stratAnno == .absent && !d'.paused)) else d' == d
     | .finalize, none, none => true
     | .finalize, _, _ => false
     | _, _, _ => true
   else true
+
+/-- known-finding guard `unclaimedFinalizeStep`: a complete `Finalize` on a Deployment in the region of
+    `guardUnclaimed` (no control-info, yet paused or with a parked strategy) -/
+def guardUnclaimedStep (s : Step) (d : Option Dep) : Bool :=
+  s.call == .finalize && s.bpNil && guardUnclaimed d
+
+/-- the part of `okHasEffect` that is a theorem of the unchanged code -/
+def okHasEffectPartial (s : Step) (d : Option Dep) (o : StepOut) : Bool :=
+  guardUnclaimedStep s d || okHasEffect s d o
 
 /-- steps `k` and `k+1` repeat the same controller call -/
 def sameCall (a b : Step) : Bool :=
